@@ -49,6 +49,9 @@ func NewSparseConstInt64Vector(indices []int, values []int64, n int) SparseConst
   r.indices = indices[0:0]
   r.values = make([]int64, 0, len(values))
   for i, k := range indices {
+    if k < 0 {
+      panic("negative index")
+    }
     if k >= n {
       panic("index larger than vector dimension")
     }
